@@ -122,7 +122,7 @@ Section Exact.
     set (SB := N.lor (c_scratch0 c) (c_scratch1 c)) in *.
     assert (OS : same_outside (scratch c) m m' = true).
     { unfold same_outside, scratch. fold SB. rewrite O. apply N.eqb_refl. }
-    unfold entry_ok in He. apply andb_prop in He. destruct He as [He _].
+    unfold entry_ok in He.
     unfold mark_clear in He. apply N.eqb_eq in He. fold m in He.
     (* the three verdict actions share one argument *)
     assert (V : forall vb t, wf_bit vb -> N.land vb (c_scratch0 c) = 0 -> N.land vb (c_scratch1 c) = 0 ->
